@@ -52,6 +52,8 @@ type World struct {
 	// DialPolicy decides what happens to a dial with no listener: "" = refused,
 	// "timeout" = hangs until the dialer's timeout.
 	DialPolicy func(node, address string) string
+	// ConnectDelay, if set, makes a successful dial to address take that long.
+	ConnectDelay func(node, address string) time.Duration
 	// DefaultLatency applies to links created afterwards.
 	DefaultLatency func(l *Link) [2]time.Duration
 	// OnLink is called for every new link (tap installation).
